@@ -10,6 +10,7 @@
    precision of the writer installed at write time). *)
 From Coq Require Import List Bool Arith.
 From CR Require Import Model.Writers Proofs.Writers.
+From CR Require Model.WritersSrc Gen.Src_writers Proofs.SrcWriters.
 Import ListNotations.
 
 Section C15.
@@ -87,6 +88,26 @@ Section C15.
       forall q b, lookup q (files (run repaired h s)) = Some b -> exists f p a pp, b = render f p a pp.
   Proof. exact (files_are_renderings A key value node bytes key_eqb header objects problems ser_xml pb_header
                   pb_objects pb_problems ser_pb). Qed.
+
+  (* ---- the model is the source: the bodies of XMLFileWriter.write_to_file / write_scenario_to_file and
+     ProtobufFileWriter.write_to_file / write_scenario_to_file are parsed on every run into lists of steps
+     (Gen/Src_writers.v, harness/props/c15_src.py: overwrite policy, new tree / message, precision of the writer
+     installed, header, objects, planning problems, validation, serialisation).  [src_step] runs the parsed bodies
+     (interpreter: Model/WritersSrc.v) where the model has write_call; it is the model's step with both repairs, on
+     every world and operation - so the theorems above, stated for [repaired], are about the parsed source. *)
+  Theorem C15_step_is_source : forall (s : world) (o : op A),
+    SrcWriters.src_step A key value node bytes key_eqb header objects problems ser_xml pb_header pb_objects pb_problems
+                        ser_pb s o
+    = step repaired s o.
+  Proof.
+    exact (SrcWriters.src_step_is_model A key value node bytes key_eqb header objects problems ser_xml pb_header
+                                        pb_objects pb_problems ser_pb).
+  Qed.
+  (* FileWriter.__init__ installs decimal_precision; _handle_file_path is the overwrite policy of [skips] (both
+     compared with their expected text) *)
+  Theorem C15_frames_are_source :
+    Src_writers.src_init = WritersSrc.InitSetsPrecision /\ Src_writers.src_policy = WritersSrc.PolicyStd.
+  Proof. exact SrcWriters.src_forms. Qed.
 End C15.
 
 (* the code as it was found, on the symbolic instance (a node records its inputs and the precision
@@ -113,6 +134,16 @@ Example C15_repaired_examples :
     = Some OSkipped.
 Proof. exact Refuted.repaired_examples. Qed.
 
+(* non-vacuity: the parsed XML write_to_file, run on the symbolic instance twice, writes the same rendering twice *)
+Example C15_source_nonvacuous :
+  let step2 := SrcWriters.src_step Sym.A nat nat Sym.node Sym.bytes Nat.eqb Sym.header Sym.objects Sym.problems Sym.ser_xml
+                                   Sym.pb_header Sym.pb_objects Sym.pb_problems Sym.ser_pb in
+  let s1 := fst (step2 Sym.empty (New 0 XML 4 7)) in
+  let (s2, o1) := step2 s1 (Write 0 0 Always) in
+  let (s3, o2) := step2 s2 (Write 0 1 Always) in
+  o1 = OWritten 0 (Sym.render XML 4 7 true) /\ o2 = OWritten 1 (Sym.render XML 4 7 true).
+Proof. vm_compute. split; reflexivity. Qed.
+
 Print Assumptions C15_write_history_independent.
 Print Assumptions C15_same_inputs_same_bytes.
 Print Assumptions C15_skip_untouched.
@@ -122,3 +153,6 @@ Print Assumptions C15_files_are_renderings.
 Print Assumptions C15_accumulating_tree_refuted.
 Print Assumptions C15_global_precision_refuted.
 Print Assumptions C15_repaired_examples.
+Print Assumptions C15_step_is_source.
+Print Assumptions C15_frames_are_source.
+Print Assumptions C15_source_nonvacuous.
